@@ -131,33 +131,9 @@ Definition holds_C04 (c : case) : bool :=
 Definition failing_classes (c : case) : list cls :=
   map ot_cls (filter (fun o => negb (holds_events (ot_events o))) (c_objs c)).
 
-(* ---------------------------------------------------------------- known-finding classes
-   D23: a MultiSetEdit whose tighten_bounds() returned False while the next observation of its bounds() is still a
-   proper interval (the matcher's bracket was single-valued before any matching was computed); nested in a list the
-   run dies on EditDistance's assertion *)
-Fixpoint false_then_proper (since_false : bool) (evs : list ev) : bool :=
-  match evs with
-  | [] => false
-  | ET r :: evs' => false_then_proper (negb r) evs'
-  | EB b :: evs' => (since_false && negb (definitive_b b)) || false_then_proper false evs'
-  end.
-
-Definition kf_multiset_unmatched (c : case) : bool :=
-  existsb (fun o => cls_eqb (ot_cls o) CMultiSet && false_then_proper false (ot_events o)) (c_objs c).
-
-(* D24: the only clause that fails is "False only on an interval that already is a single value": some call returned
-   False although it turned a proper interval into a single value (EditDistance on the call that completes its
-   matrix; inherited by the classes that delegate to it).  Searches over such items may in addition stop on a proper
-   interval (they never re-key an item whose call returned False): for them only the calls that returned True are
-   held to the clauses. *)
-Definition is_search_cls (k : cls) : bool := match k with CSearch | CPossible => true | _ => false end.
-Definition only_true_calls (evs : list ev) : list ev :=
-  filter (fun e => match e with EB _ => true | ET r => r end) evs.
-Definition kf_false_with_change (c : case) : bool :=
-  negb (c_crashed c) &&
-  forallb (fun o => weak_events (ot_events o) ||
-                    (is_search_cls (ot_cls o) && scan false None [] (only_true_calls (ot_events o)))) (c_objs c) &&
-  existsb (fun o => negb (is_search_cls (ot_cls o)) && negb (holds_events (ot_events o))) (c_objs c).
+(* no open known-finding class: D23 (MultiSetEdit gave up before its matching was computed), D24 (EditDistance
+   reported False on the call that completed its matrix) and D25 (IterativeTighteningSearch returned its best item's
+   flag) are repaired in the code; their replays stay in corpus/C04.jsonl *)
 
 (* ---------------------------------------------------------------- machines and their contract *)
 Definition zr := (Z * Z)%type.                        (* finite range (lower, upper) *)
